@@ -113,6 +113,13 @@ so the text generated for every other unit is untouched; prelude Model/SrcPrelud
   returns); the handler starts from the variables as they were at `try` -- a variable the body assigns is UNBOUND in the handler
   unless every statement of the body from its first assignment on cannot raise (`l.append(<name>)`, `x = <name or literal>`);
   break / continue inside are rejected.
+* The IPGlob class (STATEVARS: _start, _end `addr`, _glob `optstr` = a slot that holds a str or is unset): `self.p = e` for a class-level
+  `p = property(getter, setter, ..)` is `self.<setter>(e)`, a read of `self.p` is `self.<getter>()`; a read of an `optstr` slot is
+  py_attr_get (AttributeError when unset), an assignment to it stores Some; `super(C, self).m(..)` is the hand-model symbol of
+  SRCB_SUPER (py_iprange_init / py_iprange_getstate / py_iprange_setstate; it assigns the state attributes listed there);
+  `__init__` / `__setstate__` (SRCB_CONSTRUCTORS) take no incoming state: optstr slots start as None, the other attributes are
+  unbound until assigned, the result is the state built.  As for every STATEVARS class a method that raises says nothing about the
+  state it leaves behind.
 SRCB, netaddr/ip/nmap.py -> pysrc_nmap_gen.v (prelude Model/SrcPreludeNmap.v):
 * A Python set of ints is the duplicate-free list of its elements in insertion order (as for the splitter unit): `set()` = [],
   `s.add(x)` = py_set_add Z.eqb, `sorted(s)` = py_sorted_asc (ascending insertion sort).
@@ -339,6 +346,23 @@ UNIT_PREAMBLE["pysrc_rfc1924_gen.v"] = (
 # the fuel first, so it needs one more unit to see the condition fail
 FUEL[(None, "ipv6_to_base85", 1)] = ("0", 21)
 SRCB_RESERVED |= set("addr_str BASE_85 py_b85_dict_get py_chr_o py_ipaddress_of_int".split())
+# the IPGlob class (netaddr/ip/glob.py): object state (_start, _end: IPAddress objects; _glob: a str, or unset = None) read and
+# written like locals (STATEVARS); `__init__` / `__setstate__` are CONSTRUCTORS: they start from an object whose slots are unset
+# (no state parameters; _glob = None, _start / _end unbound until assigned) and return the state they build.
+# `super(IPGlob, self).m(..)` is NOT translated: the IPRange methods become hand-model symbols (SrcPreludeGlob):
+# (class, m) -> (symbol, state attributes it assigns, state attributes passed in front of the arguments, result type)
+STATEVARS["IPGlob"] = (("_start", "addr"), ("_end", "addr"), ("_glob", "optstr"))
+STATE["IPGlob"] = ()
+SRCB_UNITS[0][4].extend([("IPGlob", m, t) for m, t in (
+    ("_get_glob", {}), ("_set_glob", {"ipglob": "str"}), ("__str__", {}), ("__getstate__", {}),
+    ("__init__", {"ipglob": "str"}), ("__setstate__", {"state": "istate"}))])
+SRCB_CONSTRUCTORS = ("__init__", "__setstate__")
+SRCB_SUPER = {("IPGlob", "__init__"): ("py_iprange_init", ("_start", "_end"), (), ("tup", ("addr", "addr"))),
+              ("IPGlob", "__setstate__"): ("py_iprange_setstate", ("_start", "_end"), (), ("tup", ("addr", "addr"))),
+              ("IPGlob", "__getstate__"): ("py_iprange_getstate", (), ("_start", "_end"), "istate")}
+SRCB_VALUES = SRCB_VALUES + ("optstr", "istate")     # `optstr` = a slot holding a str, or unset; `istate` = IPRange.__getstate__()
+COQTY.update({"optstr": "(option string)", "istate": "(Z * Z * Z)"})
+SRCB_RESERVED |= set("py_iprange_init py_iprange_setstate py_iprange_getstate py_attr_get".split())
 UNIT_PREAMBLE["pysrc_nmap_gen.v"] = (
     "(* the platform parsers nmap.py reaches through IPAddress(text) / IPNetwork(text): parameters, as in Model/Nmap.v *)\n"
     "Section WithPlatform.\nVariable pton6 : string -> option Z.\nVariable ip_address : string -> outcome (Z * Z).\n")
@@ -2072,8 +2096,91 @@ class FnB(Fn):
     """Fn plus the constructs of the text functions (see "SRCB" at the end of the module docstring); used for UNIT_FNCLASS units"""
 
     def __init__(self, tr, recv, name, ptypes):
-        self.nonempty, self.localfns, self.rangeloops, self.renamed, self.isgen = [], {}, {}, {}, False
+        self.nonempty, self.localfns, self.rangeloops, self.renamed, self.isgen, self.isctor, self.entered = [], {}, {}, {}, False, False, False
         Fn.__init__(self, tr, recv, name, ptypes)
+
+    # ---- classes with STATEVARS (IPGlob): properties with setters, super() calls, constructors, slots that may be unset
+    def class_properties(self):
+        """{name: (getter, setter)} for the class-level `name = property(getter, setter, ..)` of the receiver class"""
+        out = {}
+        c = self.mod.classes.get(self.recv)
+        for st in (c.body if c is not None else []):
+            if (isinstance(st, ast.Assign) and len(st.targets) == 1 and isinstance(st.targets[0], ast.Name) and isinstance(st.value, ast.Call)
+                    and dotted(st.value.func) == "property" and len(st.value.args) >= 2 and not any(k.arg in ("fget", "fset") for k in st.value.keywords)
+                    and all(isinstance(a, ast.Name) for a in st.value.args[:2])):
+                names = [a.id for a in st.value.args[:2]]
+                if all(sum(isinstance(f, ast.FunctionDef) and f.name == n for f in c.body) == 1 for n in names):
+                    out[st.targets[0].id] = tuple(names)
+        return out
+
+    def pre_rewrite(self, f):
+        """a copy of method f in which `self.p = e` for a property p with a setter is `self.<setter>(e)`, a read of `self.p` is
+        `self.<getter>()`, `super(C, self).m(a..)` is the hand-model symbol of SRCB_SUPER (assigning the state attributes it sets),
+        and a read of a slot that may be unset is `__srcb_getattr(self._x)` (AttributeError when unset)"""
+        import copy
+        f, fn = copy.deepcopy(f), self
+        props = self.class_properties()
+        opt = {"self." + a for a, ty in STATEVARS[self.recv] if ty == "optstr"}
+        attr = lambda name, ctx, at: ast.copy_location(ast.Attribute(value=ast.copy_location(ast.Name(id="self", ctx=ast.Load()), at), attr=name, ctx=ctx), at)
+
+        def super_call(v):
+            if (isinstance(v, ast.Call) and isinstance(v.func, ast.Attribute) and isinstance(v.func.value, ast.Call)
+                    and dotted(v.func.value.func) == "super" and [dotted(a) for a in v.func.value.args] == [fn.recv, "self"]
+                    and not v.func.value.keywords and not v.keywords):
+                if (fn.recv, v.func.attr) not in SRCB_SUPER:
+                    bad(v, "super().%s is not in the translator's table SRCB_SUPER" % v.func.attr)
+                return SRCB_SUPER[(fn.recv, v.func.attr)]
+            return None
+
+        class T(ast.NodeTransformer):
+            def visit_Assign(self, st):
+                t = st.targets[0] if len(st.targets) == 1 else None
+                if isinstance(t, ast.Attribute) and dotted(t) == "self." + t.attr and t.attr in props:
+                    call = ast.Call(func=attr(props[t.attr][1], ast.Load(), st), args=[self.visit(st.value)], keywords=[])
+                    return ast.copy_location(ast.Expr(value=ast.copy_location(call, st)), st)
+                return self.generic_visit(st)
+
+            def visit_Expr(self, st):
+                sup = super_call(st.value)
+                if sup is not None and sup[1]:
+                    call = self.visit(st.value)
+                    tgt = ast.Tuple(elts=[attr(a, ast.Store(), st) for a in sup[1]], ctx=ast.Store())
+                    return ast.copy_location(ast.Assign(targets=[ast.copy_location(tgt, st)], value=call), st)
+                return self.generic_visit(st)
+
+            def visit_Call(self, n):
+                sup = super_call(n)
+                n = self.generic_visit(n)
+                if sup is not None:
+                    return ast.copy_location(ast.Call(func=ast.copy_location(ast.Name(id="__srcb_super_" + n.func.attr, ctx=ast.Load()), n),
+                                                      args=[attr(a, ast.Load(), n) for a in sup[2]] + n.args, keywords=[]), n)
+                return n
+
+            def visit_Attribute(self, n):
+                if isinstance(n.ctx, ast.Load) and dotted(n) == "self." + n.attr and n.attr in props:
+                    return ast.copy_location(ast.Call(func=attr(props[n.attr][0], ast.Load(), n), args=[], keywords=[]), n)
+                if isinstance(n.ctx, ast.Load) and dotted(n) in opt:
+                    return ast.copy_location(ast.Call(func=ast.copy_location(ast.Name(id="__srcb_getattr", ctx=ast.Load()), n), args=[n], keywords=[]), n)
+                return self.generic_visit(n)
+        return ast.fix_missing_locations(T().visit(f))
+
+    def method_mutates(self, name, seen=()):
+        """as Fn.method_mutates, on the rewritten method"""
+        r = self.mod.lookup(self.recv, name)
+        if r is None:
+            return False
+        paths = {"self." + a for a, _ in STATEVARS[self.recv]}
+        for n in ast.walk(self.pre_rewrite(r[1])):
+            if isinstance(n, ast.Attribute) and dotted(n) in paths and not isinstance(n.ctx, ast.Load):
+                return True
+            if (isinstance(n, ast.Call) and isinstance(n.func, ast.Attribute) and dotted(n.func) == "self." + n.func.attr
+                    and n.func.attr not in seen + (name,) and self.method_mutates(n.func.attr, seen + (name,))):
+                return True
+        return False
+
+    def state_as_locals(self, f):
+        self.isctor = self.pyname in SRCB_CONSTRUCTORS
+        return Fn.state_as_locals(self, self.pre_rewrite(f))
 
     def prepare(self, f, ptypes):
         """a copy of f in which `*xs` with a declared list type is an ordinary last parameter (the tuple of the arguments), and
@@ -2406,6 +2513,18 @@ class FnB(Fn):
             finally:
                 self.nohoist -= 1
             return ("bool", "(existsb (fun %s => %s) (chars %s))" % (cn, c, t))
+        if isinstance(f, ast.Name) and f.id.startswith("__srcb_super_") and (self.recv, f.id[13:]) in SRCB_SUPER:
+            sym, _, _, rty = SRCB_SUPER[(self.recv, f.id[13:])]              # super().m(..): the hand model of the IPRange method
+            args = [self.ex(x, env) for x in node.args]
+            if any(not is_value(ty) for ty, _ in args):
+                bad(node, "argument of super().%s" % f.id[13:])
+            term = "(%s)" % " ".join([sym] + [t for _, t in args])
+            return (rty, term) if rty == "istate" else ("out", rty, term)
+        if isinstance(f, ast.Name) and f.id == "__srcb_getattr" and len(node.args) == 1:
+            ty, t = self.ex(node.args[0], env)                               # a slot that may be unset: AttributeError
+            if ty != "optstr":
+                bad(node, "read of a slot of kind %s" % show(ty))
+            return ("out", "str", "(py_attr_get %s)" % t)
         if self.builtin_call(node, "ord", env, 1) and self.typeof(node.args[0], env) == "char":
             return ("int", "(code %s)" % self.ex(node.args[0], env)[1])      # ord(c)
         if self.builtin_call(node, "chr", env, 1):
@@ -2451,6 +2570,12 @@ class FnB(Fn):
     # ---- statements
     def assign(self, s, env, go):
         tgt = s.targets[0] if isinstance(s, ast.Assign) and len(s.targets) == 1 else None
+        if (isinstance(tgt, ast.Name) and self.recv in STATEVARS and ("optstr" in [ty for a, ty in STATEVARS[self.recv] if "self" + a == tgt.id])
+                and self.typeof(s.value, env) == "str"):
+            ty, t = self.ex(s.value, env)                                    # self._x = <str>: the slot is set
+            pre = self.take_pre()
+            cn, env = self.bind_local(tgt, tgt.id, "optstr", env, s.value)
+            return self.wrap(pre, ("let", cn, "(Some %s)" % t, go(env)))
         if isinstance(tgt, ast.Tuple) and len(tgt.elts) == 2 and all(isinstance(x, ast.Name) for x in tgt.elts):
             ty = self.typeof(s.value, env)
             if is_list(ty):                                                  # a, b = <list>: ValueError unless it has two elements
@@ -2519,6 +2644,16 @@ class FnB(Fn):
         return Fn.expr_stmt(self, s, env, go)
 
     def block(self, stmts, env, k, after):
+        if not self.entered:
+            self.entered = True
+            if self.isctor:          # a constructor: no incoming state; slots that may be unset are None, the others unbound
+                env = dict(env)
+                for a, ty in STATEVARS[self.recv]:
+                    if ty == "optstr":
+                        env["self" + a] = (ty, "None")
+                    else:
+                        env.pop("self" + a)
+                self.statevars = []
         if stmts and isinstance(stmts[0], ast.FunctionDef):
             return self.localdef(stmts[0], list(stmts[1:]), env, k, after)
         if stmts and isinstance(stmts[0], ast.Try) and self.is_try_b(stmts[0]):
